@@ -1590,8 +1590,6 @@ class BinaryOperator(SymbolicExpression, ABC):
 @dataclass(eq=False)
 class ForAll(BinaryOperator):
 
-    solution_set: List[Dict[int, HashedValue]] = field(init=False, default_factory=list)
-
     @property
     def _name_(self) -> str:
         return self.__class__.__name__
@@ -1631,73 +1629,68 @@ class ForAll(BinaryOperator):
             required_vars = required_vars.union(self.condition._unique_variables_)
         return required_vars
 
-    @staticmethod
-    def _most_general_bindings_(bindings: List[Dict[int, HashedValue]]) -> List[Dict[int, HashedValue]]:
+    @property
+    def _ids_of_variables_used_outside_(self) -> typing.Set[int]:
         """
-        Remove repeated bindings and bindings that only extend another (more general) one. A binding that leaves a
-        variable unbound stands for all values of that variable, which is what a disjunction yields for the side that
-        does not mention the variable.
+        The ids of the variables that the rest of the query refers to: what is selected or concluded, the conditions next
+        to this one and next to the nodes above it, the universal variable of an enclosing universal condition.
         """
-        unique = list({tuple(sorted(b.items(), key=lambda kv: kv[0])): b for b in bindings}.values())
-        return [b for b in unique
-                if not any(g is not b and len(g) < len(b) and all(k in b and b[k] == v for k, v in g.items())
-                           for g in unique)]
+        ids = set()
+        child, parent = self, self._parent_
+        while parent is not None:
+            used = [other for other in parent._children_ if other is not child]
+            if isinstance(parent, QueryObjectDescriptor):
+                used.extend(parent.selected_variables)
+            used.extend(conclusion for node in (child, parent) for conclusion in node._conclusion_)
+            for expression in used:
+                ids.update(v.id_ for v in expression._unique_variables_)
+            child, parent = parent, parent._parent_
+        return ids
 
-    @classmethod
-    def _intersect_bindings_(cls, first: List[Dict[int, HashedValue]],
-                             second: List[Dict[int, HashedValue]]) -> List[Dict[int, HashedValue]]:
+    @property
+    def _free_variables_(self) -> List[SymbolicExpression]:
         """
-        Intersect two sets of (possibly partial) bindings: two bindings that agree on the variables they share are
-        unified, for fully bound sets this is the plain intersection.
+        The variables the universal is decided for, binding by binding: the variables of the condition that the universal
+        expression is not built from, and the variables it is built from (the parent of a flattened attribute, a variable
+        in the condition of a sub-query) that the rest of the query refers to as well - the values of the universal
+        expression are its values under one binding of those. The universal variables of a universal condition inside
+        the condition are not among them.
         """
-        unified = [{**a, **b} for a in first for b in second
-                   if all(b[k] == v for k, v in a.items() if k in b)]
-        return cls._most_general_bindings_(unified)
+        own = self.variable._unique_variables_
+        free = {v.id_: v.value for v in self.condition._unique_variables_.difference(own)
+                if v.id_ in self.condition_unique_variable_ids}
+        for node in self.condition._all_nodes_:
+            if isinstance(node, ForAll):
+                free_of_node = {v._id_ for v in node._free_variables_}
+                for v in node.variable._unique_variables_:
+                    if v.id_ not in free_of_node:
+                        free.pop(v.id_, None)
+        if not isinstance(self.variable, Variable):
+            used_outside = self._ids_of_variables_used_outside_
+            free.update({v.id_: v.value for v in own if v.id_ in used_outside and not isinstance(v.value, Literal)})
+        return list(free.values())
 
     def _evaluate__(self, sources: Optional[Dict[int, HashedValue]] = None,
                     yield_when_false: bool = False) -> Iterable[Dict[int, HashedValue]]:
         sources = sources or {}
+        self._yield_when_false_ = yield_when_false
 
-        # Always reset per evaluation
-        self.solution_set = []
+        # the other variables are bound first, one binding at a time, the universal is true or false under each of them.
+        for variable in self._free_variables_:
+            if variable._id_ not in sources:
+                for binding in variable._evaluate__(copy(sources)):
+                    yield from self._evaluate__({**sources, **binding}, yield_when_false=yield_when_false)
+                return
 
-        var_val_index = 0
-
-        for var_val in self.variable._evaluate__(sources):
+        holds = False
+        for var_val in self.variable._evaluate__(copy(sources)):
             ctx = {**sources, **var_val}
-            current = []
-
-            # Evaluate the condition under this particular universal value
-            for condition_val in self.condition._evaluate__(ctx):
-                if self.condition._is_false_:
-                    continue
-                # Keep only the non-universal variables from the condition bindings
-                filtered = {k: v for k, v in condition_val.items() if k in self.condition_unique_variable_ids}
-                current.append(filtered)
-
-            # If the condition yields no satisfying bindings for this universal value, the universal fails
-            if not current:
-                self.solution_set = []
+            holds = any(not self.condition._is_false_ for _ in self.condition._evaluate__(ctx))
+            if not holds:
                 break
-
-            if var_val_index == 0:
-                # seed with all satisfying non-universal bindings
-                self.solution_set = self._most_general_bindings_(current)
-            else:
-                # Intersect with previously accumulated satisfying bindings
-                self.solution_set = self._intersect_bindings_(self.solution_set, current)
-
-            var_val_index += 1
-
-            # Early exit if the intersection is empty
-            if not self.solution_set:
-                break
-
-        # Yield the remaining bindings (non-universal) merged with the incoming sources
-        for sol in self.solution_set or []:
-            out = copy(sol)
-            out.update(sources)
-            yield out
+        self._is_false_ = not holds
+        if holds or yield_when_false:
+            yield copy(sources)
 
 
 def not_contains(a, b):
